@@ -213,7 +213,29 @@ func H_C01_sse_queue_overflow() {
 	srv.ServeHTTP(rec, req)
 	vQuiesce()
 	if rec.code() == 202 {
-		vAssert("answer-queued-not-dropped", len(session.eventQueue) == fill+1)
+		if fill < 100 {
+			vAssert("answer-queued-not-dropped", len(session.eventQueue) == fill+1)
+		} else {
+			// the queue is full: the answer waits for room; once the stream has taken one frame it is queued
+			<-session.eventQueue
+			vQuiesce()
+			vAssert("answer-queued-not-dropped", len(session.eventQueue) == 100)
+		}
+		// exactly one of the queued frames is the answer to request "a"
+		answers := 0
+		for len(session.eventQueue) > 0 {
+			ev := <-session.eventQueue
+			if !strings.HasPrefix(ev, "event: message\ndata: ") {
+				continue // a filler frame
+			}
+			payload := strings.TrimSuffix(strings.TrimPrefix(ev, "event: message\ndata: "), "\n\n")
+			if doc, ok := verifParse([]byte(payload)); ok {
+				if o, isObj := verifObj(doc); isObj && o["id"] == "a" {
+					answers++
+				}
+			}
+		}
+		vAssert("exactly-one-answer", answers == 1)
 	}
 	vReach("end")
 }
